@@ -26,6 +26,7 @@ type LoopSpec struct {
 	Foreach    []*Clause // map range loops: foreach k int :: P(k) — P(key of this iteration) at every back edge, forall keys at exit
 	Steps      []*Clause // transition invariants: checked at every back edge, may use prev(e) = value at the loop head of this iteration
 	Decreases  *Clause
+	GhostSets  [][2]*Expr // ghost assignments executed at every arrival at the loop head (entry and back edge), before the invariants
 }
 
 type FuncSpec struct {
@@ -492,6 +493,22 @@ func (db *SpecDB) LoadFile(file string, defaultPkg string) error {
 					b = strings.TrimSpace(b[j+1:])
 				}
 				body = lbl + " forall " + b
+			}
+			if kind == "ghostset" {
+				k := strings.Index(body, ":=")
+				if k < 0 {
+					return errf(rc, "loop N: ghostset target := value")
+				}
+				te, err := ParseExpr(body[:k])
+				if err != nil {
+					return errf(rc, "%v", err)
+				}
+				ve, err := ParseExpr(body[k+2:])
+				if err != nil {
+					return errf(rc, "%v", err)
+				}
+				ls.GhostSets = append(ls.GhostSets, [2]*Expr{te, ve})
+				continue
 			}
 			c, err := mkClause(rc, kind, body)
 			if err != nil {
